@@ -217,6 +217,10 @@ class _ReadSourceGenerator:
 
             # Everything else - basic and composite types (and arrays of them)
             else:
+                if self.align and field.offset is None:
+                    # Dynamically placed fields are aligned to the actual stream position, so they can't share a block
+                    yield from flush()
+
                 if not current_block:
                     current_block_offset = current_offset
 
